@@ -1,8 +1,11 @@
 (* C08 — height- and time-dependent rules. Proved: whatever is accepted satisfies the rule (the gate is not
-   early); that the same transaction is accepted exactly at the bound (not late) is exercised by the boundary
-   probes of the correspondence at bound-1 / bound / bound+1. *)
+   early), and a rule reports its error only when the height is on the wrong side of its bound (the gate is not
+   late): every function of the validation path emits error codes of a known range only, so at the bound a
+   transaction can only be rejected by another rule. The error codes are those the harness derives from the
+   implementation's error text for every rejected block; the boundary probes of the correspondence at
+   bound-1 / bound / bound+1 compare verdict and code. *)
 From Coq Require Import ZArith List Bool.
-From Sia Require Import Prim.Result Prim.Tok Policy.Model Policy.Proofs Ledger.Types Ledger.Mid Ledger.Validate Ledger.Apply Ledger.Proofs Ledger.Auth.
+From Sia Require Import Prim.Result Prim.Tok Policy.Model Policy.Proofs Ledger.Types Ledger.Mid Ledger.Validate Ledger.Apply Ledger.Proofs Ledger.Auth Ledger.Exact2 Ledger.Exact1.
 Import ListNotations.
 Open Scope Z_scope.
 
@@ -55,3 +58,46 @@ Theorem C08_v2_resolution_heights : forall H vt s rs, validate_resolution H vt s
   end.
 Proof. exact resolution_heights. Qed.
 Print Assumptions C08_v2_resolution_heights.
+
+(* not late, v2 transactions: the code of a height rule is reported only when the height is on the wrong side of the bound.
+   70 too early for v2; 76 immature input; 101 a contract formed (new, or the new contract of a renewal) whose proof height
+   is past; 115 / 118 a revision of a contract (as presented / as it currently stands in the block) whose proof height is
+   past; 124 a revision whose new proof height is past; 136 a storage proof before the proof height; 140 an expiration at
+   or before the expiration height. *)
+Theorem C08_v2_height_errors_exact : forall H net vt pt se sd s m t c, validate_txn2 H net vt pt se sd s m t = Err c ->
+  70 <= c <= 143 /\
+  (c = 70 -> child s < ln_v2_allow net) /\
+  (c = 76 -> exists i, In i (t2_sci t) /\ child s < sce_maturity (p_val (i2_parent i))) /\
+  (c = 101 -> exists fc, Formed t fc /\ c_proof_height fc < child s) /\
+  (c = 115 -> exists rv, In rv (t2_rev t) /\ c_proof_height (v2_fc (p_val (r2_parent rv))) < child s) /\
+  (c = 118 -> exists rv cur, In rv (t2_rev t) /\ current m (p_val (r2_parent rv)) = Ok cur /\ c_proof_height cur < child s) /\
+  (c = 124 -> exists rv, In rv (t2_rev t) /\ c_proof_height (r2_rev rv) < child s) /\
+  (c = 136 -> exists rs sp, In rs (t2_res t) /\ rs_res rs = RProof sp /\ child s < c_proof_height (v2_fc (p_val (rs_parent rs)))) /\
+  (c = 140 -> exists rs, In rs (t2_res t) /\ rs_res rs = RExpiration /\ child s <= c_exp_height (v2_fc (p_val (rs_parent rs)))).
+Proof. exact txn2_height_errors. Qed.
+Print Assumptions C08_v2_height_errors_exact.
+
+(* not late, v1 transactions: 20 v1 after the require height; 24 / 30 / 39 / 64 a timelock (siacoin input, siafund input,
+   revision, signature) above the height; 28 immature input; 35 / 40 a contract or revision whose window start is past;
+   44 a revision of a contract whose window has opened; 53 a storage proof before the block at the window start exists. *)
+Theorem C08_v1_height_errors_exact : forall H net vt se sd s m t ts c, validate_txn1 H net vt se sd s m t ts = Err c ->
+  20 <= c <= 68 /\
+  (c = 20 -> ln_v2_require net <= child s) /\
+  (c = 24 -> exists i, In i (t1_sci t) /\ child s < i1_timelock i) /\
+  (c = 28 -> exists i p lf, In i (t1_sci t) /\ sc_element m ts (i1_parent i) = Some (p, lf) /\ child s < sce_maturity p) /\
+  (c = 30 -> exists i, In i (t1_sfi t) /\ child s < f1_timelock i) /\
+  (c = 35 -> exists x, In x (t1_fc t) /\ fc_wstart (snd (fst x)) < child s) /\
+  (c = 39 -> exists rv, In rv (t1_rev t) /\ child s < r1_timelock rv) /\
+  (c = 40 -> exists rv, In rv (t1_rev t) /\ fc_wstart (r1_fc rv) < child s) /\
+  (c = 44 -> exists rv p lf, In rv (t1_rev t) /\ fc_element m ts (r1_parent rv) = Some (p, lf) /\ fc_wstart (fce_fc p) < child s) /\
+  (c = 53 -> exists sp, In sp (t1_sp t) /\ sp_window_id m ts s (s1_parent sp) = None) /\
+  (c = 64 -> exists g, In g (t1_sigs t) /\ child s < g_timelock g).
+Proof. exact txn1_height_errors. Qed.
+Print Assumptions C08_v1_height_errors_exact.
+
+(* the two hardfork gates are exact: the code is reported if and only if the height is on the wrong side *)
+Theorem C08_gates_exact : forall H net vt pt se sd s m,
+  (forall t, validate_txn2 H net vt pt se sd s m t = Err 70 <-> child s < ln_v2_allow net) /\
+  (forall t ts, validate_txn1 H net vt se sd s m t ts = Err 20 <-> ln_v2_require net <= child s).
+Proof. exact gates_exact. Qed.
+Print Assumptions C08_gates_exact.
